@@ -354,6 +354,15 @@ func sessionCase(dir string, k int) rt.Result {
 		defer rl.Close()
 		opts = append(opts, corebgp.WithPort(rl.Addr().(*net.TCPAddr).Port))
 	}
+	// a third of the sessions run with a configured local address: inbound it is the
+	// address the remote connects to, outbound the dial is bound to it
+	if k%3 == 1 {
+		la := "127.0.0.1"
+		if dir == "out" {
+			la = fmt.Sprintf("127.0.0.%d", 2+k%7)
+		}
+		opts = append(opts, corebgp.WithLocalAddress(netip.MustParseAddr(la)))
+	}
 	if err := w.srv.AddPeer(corebgp.PeerConfig{RemoteAddress: netip.MustParseAddr(peerIP), LocalAS: lAS, RemoteAS: rAS}, pl, opts...); err != nil {
 		w.violate("AddPeer: %v", err)
 		return w.result("", true, nil)
